@@ -803,6 +803,21 @@ def equalise(ctx, a, b):
                 break
         if hit:
             continue
+        # the eight bytes of a float against literal bytes: equality of the bit pattern
+        for fe, fl, side_l in ((x, y, b), (y, x, a)):
+            if isinstance(fe, Enc) and fe.codec == ("f64",) and isinstance(fl, Lit) and len(fl.b) >= 8 \
+                    and isinstance(fe.args[0], SOpaque):
+                from . import opaque
+                conds.append(opaque.f64bits(fe.args[0].t) == opaque.literal("bytes", fl.b[:8]))
+                (a if fe is x else b).pop(0)
+                if len(fl.b) > 8:
+                    side_l[0] = Lit(fl.b[8:])
+                else:
+                    side_l.pop(0)
+                hit = True
+                break
+        if hit:
+            continue
         # a one-byte segment against a longer literal: split the literal first (pairwise comparison below is by whole segments)
         if isinstance(x, Lit) and len(x.b) > 1 and (isinstance(y, Byte) or one_byte_view(y) is not None):
             a[0:1] = [Lit(x.b[:1]), Lit(x.b[1:])]
